@@ -271,6 +271,15 @@ class AndersonCD(BaseSolver):
         return results
 
     def custom_checks(self, X, y, datafit, penalty):
+        # a block-separable datafit exposes one Lipschitz constant per group,
+        # whereas coordinate descent needs one per feature
+        if hasattr(datafit, "grp_ptr"):
+            raise ValueError(
+                f"{datafit.__class__.__name__} is block-separable (one Lipschitz "
+                "constant per group) and is not compatible with solver AndersonCD. "
+                "Use GroupBCD instead."
+            )
+
         # check datafit support sparse data
         check_attrs(
             datafit, solver=self,
